@@ -114,7 +114,7 @@ def case(ctx, rng, idx, state):
             niter = int(rng.integers(0, 3))
             Ef = runkit.fermi_grid(rng, system, n=4)
             calcs = runkit.make_calculators(rng, system, Ef, nmax=2, allow_tetra=False, pool=["CumDOS", "DOS", "AHC", "Ohmic_surf"])
-            if niter == 0 and rng.random() < 0.5:
+            if niter == 0 and rng.random() < 0.5 and not isinstance(div, str):   # grid tabulation needs a regular grid
                 calcs["tab"] = wb.calculators.tabulate.TabulatorAll({"Energy": wb.calculators.tabulate.Energy()}, mode="grid")
             kw = dict(adpt_num_iter=niter, adpt_mesh=2, adpt_fac=int(rng.integers(1, 3)), use_irred_kpt=False, symmetrize=False,
                       fout_name="c12", print_progress_step_time=1e9, print_progress_step_percent=float(rng.choice([1, 30, 60])))
